@@ -7,6 +7,7 @@ package app
 // assembly without ZooKeeper, transcript -> Gallina printer.
 
 import (
+	"runtime/debug"
 	"context"
 	"encoding/json"
 	"fmt"
@@ -96,14 +97,20 @@ type memFault struct {
 	used bool
 }
 
+type memShared struct {
+	lockOwner string            // caller holding "manager"
+	ephOwner  map[string]string // ephemeral key -> the client (session) that created it
+}
+
 type memDCS struct {
-	mu        sync.Mutex
+	mu        *sync.Mutex
 	w         *vk.World
 	caller    string
 	data      map[string][]byte
 	eph       map[string]bool
+	sh        *memShared
+	port      string // process incarnation (see World.CallHook)
 	connected bool
-	lockOwner string // caller holding "manager"
 	faults    []*memFault
 	silent    bool // do not record (setup phase)
 	onLock    func() // monitor hook: called at every AcquireLock
@@ -111,7 +118,28 @@ type memDCS struct {
 }
 
 func newMemDCS(w *vk.World, caller string) *memDCS {
-	return &memDCS{w: w, caller: caller, data: map[string][]byte{}, eph: map[string]bool{}, connected: true}
+	return &memDCS{mu: &sync.Mutex{}, w: w, caller: caller, data: map[string][]byte{}, eph: map[string]bool{}, sh: &memShared{ephOwner: map[string]string{}}, connected: true}
+}
+
+// peer returns another client (its own session, connection state and faults) of the same coordination tree.
+func (d *memDCS) peer(caller string) *memDCS {
+	return &memDCS{mu: d.mu, w: d.w, caller: caller, data: d.data, eph: d.eph, sh: d.sh, connected: true}
+}
+
+// sessionEnd: the client's session is gone - its ephemeral keys and its lock disappear
+func (d *memDCS) sessionEnd() {
+	d.mu.Lock()
+	defer d.mu.Unlock()
+	for k, o := range d.sh.ephOwner {
+		if o == d.caller {
+			delete(d.data, k)
+			delete(d.eph, k)
+			delete(d.sh.ephOwner, k)
+		}
+	}
+	if d.sh.lockOwner == d.caller {
+		d.sh.lockOwner = ""
+	}
 }
 
 // share returns a second client handle over the same tree.
@@ -312,6 +340,13 @@ func dvalGal(path string, b []byte) string {
 	return "(VOpaque 0)"
 }
 
+// hook: a process about to make a coordination call (see World.CallHook)
+func (d *memDCS) hook() {
+	if h := d.w.CallHook; h != nil && !d.silent {
+		h(d.caller, d.port)
+	}
+}
+
 func (d *memDCS) rec(kind, path, call, resp string, mut bool) {
 	if d.silent {
 		return
@@ -321,6 +356,7 @@ func (d *memDCS) rec(kind, path, call, resp string, mut bool) {
 }
 
 func (d *memDCS) IsConnected() bool {
+	d.hook()
 	d.mu.Lock()
 	c := d.connected
 	d.mu.Unlock()
@@ -337,31 +373,34 @@ func (d *memDCS) SetDisconnectCallback(callback func() error) {}
 func (d *memDCS) Close()                                      {}
 
 func (d *memDCS) AcquireLock(path string) bool {
+	d.hook()
 	if d.onLock != nil && !d.silent {
 		d.onLock()
 	}
 	d.mu.Lock()
 	ok := false
 	if d.connected && d.fault("lock", path) == nil {
-		if d.lockOwner == "" {
-			d.lockOwner = d.caller
+		if d.sh.lockOwner == "" {
+			d.sh.lockOwner = d.caller
 		}
-		ok = d.lockOwner == d.caller
+		ok = d.sh.lockOwner == d.caller
 	}
 	d.mu.Unlock()
 	d.rec("LockAcquire", path, "LockAcquire", "(RBool "+vk.B(ok)+")", false)
 	return ok
 }
 func (d *memDCS) ReleaseLock(path string) {
+	d.hook()
 	d.mu.Lock()
-	if d.lockOwner == d.caller {
-		d.lockOwner = ""
+	if d.sh.lockOwner == d.caller {
+		d.sh.lockOwner = ""
 	}
 	d.mu.Unlock()
 	d.rec("LockRelease", path, "LockRelease", "ROk", true)
 }
 
 func (d *memDCS) put(op, path string, value any, mustNotExist bool, eph bool) error {
+	d.hook()
 	b, err := json.Marshal(value)
 	if err != nil {
 		return err
@@ -382,6 +421,7 @@ func (d *memDCS) put(op, path string, value any, mustNotExist bool, eph bool) er
 			d.data[path] = b
 			if eph {
 				d.eph[path] = true
+				d.sh.ephOwner[path] = d.caller
 			}
 		}
 	}
@@ -412,6 +452,7 @@ func (d *memDCS) Set(path string, value any) error             { return d.put("s
 func (d *memDCS) SetEphemeral(path string, value any) error    { return d.put("seteph", path, value, false, true) }
 
 func (d *memDCS) Get(path string, dest any) error {
+	d.hook()
 	if d.onGet != nil && !d.silent {
 		d.onGet(path)
 	}
@@ -445,6 +486,7 @@ func (d *memDCS) Get(path string, dest any) error {
 }
 
 func (d *memDCS) Delete(path string) error {
+	d.hook()
 	d.mu.Lock()
 	var rerr error
 	if !d.connected {
@@ -454,6 +496,7 @@ func (d *memDCS) Delete(path string) error {
 			if k == path || strings.HasPrefix(k, path+"/") {
 				delete(d.data, k)
 				delete(d.eph, k)
+				delete(d.sh.ephOwner, k)
 			}
 		}
 	}
@@ -469,6 +512,7 @@ func (d *memDCS) Delete(path string) error {
 func (d *memDCS) GetTree(path string) (any, error) { return nil, dcs.ErrNotFound }
 
 func (d *memDCS) GetChildren(path string) ([]string, error) {
+	d.hook()
 	d.mu.Lock()
 	var rerr error
 	var res []string
@@ -594,6 +638,7 @@ func newVApp(w *vk.World, d *memDCS, o vAppOpts) *vApp {
 	if o.Tune != nil {
 		o.Tune(&cfg)
 	}
+	cfg.SetDynamicDefaults() // what config.ReadFromFile does after loading
 	w.CallerOfPort[strconv.Itoa(cfg.MySQL.Port)] = o.Hostname
 	nop := zerolog.Nop()
 	logger := &nop
@@ -635,6 +680,39 @@ func vInitOpt(app *App, d *memDCS) {
 	d.silent = was
 	app.optSyncer = optimization.NewSyncer(app.logger, app.config.OptimizationConfig, ad)
 	app.optController = optimization.NewController(app.config.OptimizationConfig, app.logger, ad, 3*time.Second)
+}
+
+// vPanicSite names the innermost mysync (non-test) function on the stack of a recovered panic.
+func vPanicSite() string {
+	lines := strings.Split(string(debug.Stack()), "\n")
+	name := func(fn string) string {
+		f := fn
+		if j := strings.LastIndex(f, "/"); j >= 0 {
+			f = f[j+1:]
+		}
+		if j := strings.LastIndex(f, "("); j > 0 {
+			f = f[:j]
+		}
+		return f
+	}
+	first := "unknown"
+	for i := 0; i+1 < len(lines); i++ {
+		fn, loc := lines[i], lines[i+1]
+		if !strings.Contains(loc, "/internal/") || strings.Contains(loc, "_test.go") || strings.Contains(loc, "/verifkit/") || !strings.Contains(fn, "mysync/internal") {
+			continue
+		}
+		if first == "unknown" {
+			first = name(fn)
+		}
+		// the innermost frame of the daemon's own logic (package app) says what went wrong where
+		if strings.Contains(loc, "/internal/app/") {
+			if first != name(fn) {
+				return name(fn) + " -> " + first
+			}
+			return name(fn)
+		}
+	}
+	return first
 }
 
 // ---------------------------------------------------------------- transcript printing
